@@ -241,7 +241,19 @@ impl<'a> YamlEmitter<'a> {
                 Ok(())
             }
             Yaml::Value(Scalar::Integer(v)) => Ok(write!(self.writer, "{v}")?),
-            Yaml::Value(Scalar::FloatingPoint(ref v)) => Ok(write!(self.writer, "{v}")?),
+            Yaml::Value(Scalar::FloatingPoint(ref v)) => {
+                // `Display` prints `inf`, `-inf` and `NaN`, which are strings in the core schema.
+                if v.is_nan() {
+                    self.writer.write_str(".nan")?;
+                } else if v.is_infinite() && v.is_sign_negative() {
+                    self.writer.write_str("-.inf")?;
+                } else if v.is_infinite() {
+                    self.writer.write_str(".inf")?;
+                } else {
+                    write!(self.writer, "{v}")?;
+                }
+                Ok(())
+            }
             Yaml::Value(Scalar::Null) | Yaml::BadValue => Ok(write!(self.writer, "~")?),
             Yaml::Representation(ref v, style, ref tag) => {
                 if let Some(Tag {
